@@ -557,7 +557,7 @@ static void schedule (bool cur_can_continue, bool is_yield) {
 	Fibre *cur = g.cur;
 	g.steps++;
 	g.plain_since_sched = 0;
-	g.now += TICK_NS;
+	if (g.hold_ticks > 0 && !g.draining) g.hold_ticks--; else g.now += TICK_NS;      /* (a clock of finite resolution: see jump kind 4) */
 	if (!g.draining && g.steps > g.B1) {
 		g.draining = true;
 		g.drained_runs_flag = 1;
@@ -573,10 +573,12 @@ static void schedule (bool cur_can_continue, bool is_yield) {
 		int64_t ed = earliest_deadline ();
 		if (ed != INT64_MAX && ed > g.now) {
 			int sv = 0;
-			if (!g.replay_mode && g.pol.p_jump > 0 && rnd_p (g.rng, g.pol.p_jump)) sv = 1 + rnd (g.rng, 3);
-			int v = take_choice (CH_CLOCK, 4, sv);
+			if (!g.replay_mode && g.pol.p_jump > 0 && rnd_p (g.rng, g.pol.p_jump)) sv = 1 + rnd (g.rng, 4);
+			int v = take_choice (CH_CLOCK, 5, sv);
 			if (v == 1) g.now = ed - 1;
 			else if (v == 2) g.now = ed;
+			else if (v == 4) { g.now = ed; g.hold_ticks = 24; }     // onto the deadline, and the clock then shows that same value for a while
+			                                                          // (finite resolution: consecutive readings may be equal)
 			else if (v == 3) g.now = ed + 1 + (int64_t) (g.steps % 7) * 1000;
 			if (v) { g.clock_jumps++; TRACE ("clock jump kind %d to +%lld", v, (long long) (g.now - g.start)); }
 		}
@@ -1191,7 +1193,7 @@ extern "C" int nsim_sys_clock_gettime (clockid_t clk, struct timespec *ts) {
 	clock_align_choice ();
 	ts->tv_sec = g.now / 1000000000LL;
 	ts->tv_nsec = g.now % 1000000000LL;
-	g.now += CLOCKREAD_NS;
+	if (g.hold_ticks == 0) g.now += CLOCKREAD_NS;
 	hfold (0xc10cULL << 32 ^ (uint64_t) (g.now - g.start));
 	sched_point ();
 	return 0;
@@ -1200,7 +1202,7 @@ int64_t rt_cpp_now () {     // for std::chrono::system_clock::now() in the C++ c
 	if (g.in_run && g.cur) clock_align_choice ();
 	int64_t v = g.now;
 	if (g.in_run && g.cur) {
-		g.now += CLOCKREAD_NS;
+		if (g.hold_ticks == 0) g.now += CLOCKREAD_NS;
 		hfold (0xc10cULL << 32 ^ (uint64_t) (g.now - g.start));
 		sched_point ();
 	}
@@ -1740,7 +1742,7 @@ void rt_reset_run (uint64_t seed) {
 	memset (g.faults_fired, 0, sizeof g.faults_fired);
 	memset (g.nchoices, 0, sizeof g.nchoices);
 	memset (g.probe_hit, 0, sizeof g.probe_hit);
-	g.faults_total = 0; g.align_jumps = 0; g.clock_jumps = 0; g.idle_jumps = 0; g.switches = 0; g.switches_in_nsync = 0;
+	g.faults_total = 0; g.align_jumps = 0; g.hold_ticks = 0; g.clock_jumps = 0; g.idle_jumps = 0; g.switches = 0; g.switches_in_nsync = 0;
 	g.natomics = 0; g.futex_waits = 0; g.futex_blocks = 0; g.futex_wakes = 0; g.nyields = 0; g.nmallocs = 0; g.nfrees = 0;
 	g.ctor_allocs = 0; g.nacquires = 0; g.fibres_total = 0;
 	g.spin_yields = 0; g.progress_mark = 0;
